@@ -40,6 +40,8 @@ def run(chk, replay=None):
         for i in range(3): variants[f"pert{3 + i}"] = dict(drive="reset_step", perturb=dict(kind="random", seed=r.getrandbits(16), p=0.5, max_ms=4))
     # starvation variants are per graph (owner names); added below through a generator wrapper
     variants["two_episodes"] = dict(drive="reset_step", episodes=2)      # same graph object, same initial state, second episode
+    # the user thread is descheduled inside AsyncGraph.start() between starting one node and the next (hook point start:node)
+    variants["start_pause"] = dict(drive="reset_step", perturb=dict(kind="points", points=["start:node"], ms=60))
     starve_owners = ["n0", "n1", "n0>n1", "n1>n0"] if not quick else ["n0", "n0>n1"]
     for o in starve_owners: variants[f"starve:{o}"] = dict(drive="reset_step", perturb=dict(kind="starve", owner=o, ms=3))
     def gen(rnd, max_nodes=4):
@@ -52,6 +54,7 @@ def run(chk, replay=None):
         if G["skipped"]: chk.feat("skipped:" + G["skipped"].split(":")[0]); continue
         eps = {}
         for vn, rr in G["runs"].items():
+            if "error" in rr and al.unsupported_hang(chk, cfg, rr): continue
             if "error" in rr:
                 chk.case((repr(cfg), vn), ["impl-error"], None)
                 chk.violation(f"async-run-fails:{rr['error'].split(':')[0].split(' ')[0]}", f"threaded run failed ({vn}): {rr['error'][:300]}", dict(cfg=cfg, variant=vn))
